@@ -43,6 +43,7 @@ def run(chk, tier, scale=1.0):
     chk.count("strings_accepted", tot.get("accepted", 0))
     chk.count("strings_rejected", tot.get("rejected", 0))
     chk.count("plain_addresses_both_parsers_accept", tot.get("libc_both", 0))
+    chk.count("claimed_prefixes_compared_with_libc", tot.get("trailing_libc", 0))
     chk.rule = ("mask test vs bit-by-bit oracle on single-bit, boundary, multi-group and random differences for every length 0..128 "
                 "(thorough: every 16-bit difference in every group at every length); grammar-derived a.b.c.d/n, a.b.*, x:y::/n, x:y:*, * "
                 "texts with independently computed (bits, network) and an inside/outside address probe; all strings over {0,1,9,a,f,:,.,/,*} "
